@@ -53,7 +53,10 @@ type (
 	}
 
 	headResponse struct {
-		size int
+		size      int
+		committed bool        // 报头是否已经确定
+		explicit  bool        // 用户是否主动调用了 WriteHeader
+		detached  http.Header // 报头确定之后返回给用户的副本，对其的修改不再生效。
 		http.ResponseWriter
 	}
 )
@@ -358,10 +361,31 @@ func (p *Prefix[T]) Resource(pattern string, m ...types.Middleware[T]) *Resource
 // Router 返回与当前资源关联的 [Router] 实例
 func (r *Resource[T]) Router() *Router[T] { return r.router }
 
+func (resp *headResponse) Header() http.Header {
+	if resp.detached != nil {
+		return resp.detached
+	}
+	return resp.ResponseWriter.Header()
+}
+
+func (resp *headResponse) WriteHeader(status int) {
+	if !resp.committed { // 与 GET 相同，报头只能输出一次。
+		resp.committed = true
+		resp.explicit = true
+		resp.ResponseWriter.WriteHeader(status)
+	}
+}
+
 func (resp *headResponse) Write(bs []byte) (int, error) {
 	l := len(bs)
 	resp.size += l
 
-	resp.Header().Set(header.ContentLength, strconv.Itoa(resp.size))
+	if !resp.committed { // 与 GET 相同，首次输出内容之后对报头的修改不再启作用。
+		resp.committed = true
+		resp.detached = resp.ResponseWriter.Header().Clone()
+	}
+	if !resp.explicit {
+		resp.ResponseWriter.Header().Set(header.ContentLength, strconv.Itoa(resp.size))
+	}
 	return l, nil
 }
